@@ -7,7 +7,7 @@ import shutil
 from vlib import REPLAYS, ToolError
 
 
-def validate_search_trace(ctx, tr, name):
+def validate_search_trace(ctx, tr, name, record_args=None):
     r = ctx.tlc("SearchTrace", "SearchTrace.cfg", env={"VERIF_TRACE": tr, "VERIF_KEYS": ctx.keys()}, workers=1, deque=True,
                 timeout=2400, name=name)
     done = list(ctx.tlc_lines(r["out_path"], "DONE"))
@@ -40,7 +40,7 @@ def validate_search_trace(ctx, tr, name):
             beg = json.loads(lines[j])
             ctx.violation(b["check"], {"trace_line": b["line"], "fen": beg.get("fen"), "meta": beg.get("meta"),
                                        "event": json.loads(lines[b["line"] - 1])},
-                          {"kind": "trace", "trace": kept, "line": b["line"], "module": "SearchTrace"})
+                          {"kind": "trace", "record_args": record_args, "trace": kept, "line": b["line"], "module": "SearchTrace"})
     return done[0]["lines"]
 
 
